@@ -499,6 +499,8 @@ theorem prefix_order_conflict_rejected (c : Char) (pre base : List Char) (a : At
       | int i => simp at hA; exact hA.2.symm
       | bool b => simp at hA
       | other r => simp at hA
+      | choice l => simp at hA
+      | notP r => simp at hA
       | str s =>
         simp only at hA
         split at hA
